@@ -509,6 +509,73 @@ def capsuleSelect {H : Type} (tOf : H → α) (colls : List H) (originInside : B
 def capsuleCands (sqrtF : α → α) (p1 p2 : V3 α) (radius : α) (o d : V3 α) : List (Hit α) :=
   sphereHits sqrtF p1 radius o d ++ sphereHits sqrtF p2 radius o d ++ cylSideHits sqrtF p1 p2 radius o d
 
+/-! ## `Capsule.Contains` and the whole `Capsule` -/
+
+/-- `NewSegment`: canonical (lexicographic) ordering of the end points. -/
+def newSegment (p1 p2 : V3 α) : V3 α × V3 α :=
+  if decide (p1.x < p2.x) || (eqB p1.x p2.x && decide (p1.y < p2.y)) ||
+      (eqB p1.x p2.x && eqB p1.y p2.y && decide (p1.z < p2.z)) then (p1, p2) else (p2, p1)
+
+/-- 3-D `Segment.Closest`. -/
+def segClosest3 (sqrtF : α → α) (s0 s1 c : V3 α) : V3 α :=
+  let v1 := s1.sub s0
+  let norm := v1.norm sqrtF
+  let v := v1.scale (1 / norm)
+  let v2 := c.sub s0
+  let mag := v.dot v2
+  if norm < mag then s1 else if mag < 0 then s0 else (v.scale mag).add s0
+
+/-- `Capsule.Contains`: `NewSegment(P1, P2).Dist(coord) <= Radius`. -/
+def capsuleContains (sqrtF : α → α) (p1 p2 : V3 α) (radius : α) (c : V3 α) : Bool :=
+  let s := newSegment p1 p2
+  decide (c.dist sqrtF (segClosest3 sqrtF s.1 s.2 c) ≤ radius)
+
+/-- `Capsule.RayCollisions` / `FirstRayCollision`. -/
+def capsuleCollider (sqrtF : α → α) (p1 p2 : V3 α) (radius : α) : Collider (V3 α × V3 α) (Hit α) :=
+  { ray := fun r cb => capsuleSelect Hit.t (capsuleCands sqrtF p1 p2 radius r.1 r.2)
+      (capsuleContains sqrtF p1 p2 radius r.1) cb,
+    first := fun r => minFirst Hit.t (capsuleSelect Hit.t (capsuleCands sqrtF p1 p2 radius r.1 r.2)
+      (capsuleContains sqrtF p1 p2 radius r.1) true).2 none }
+
+/-- `Cylinder.RayCollisions` / `FirstRayCollision` (min-callback). -/
+def cylCollider (sqrtF : α → α) (eps : α) (p1 p2 : V3 α) (radius : α) : Collider (V3 α × V3 α) (Hit α) :=
+  ofHits (fun r => cylHits sqrtF eps p1 p2 radius r.1 r.2)
+    (fun r => minFirst Hit.t (cylHits sqrtF eps p1 p2 radius r.1 r.2) none)
+
+/-! ## sqrt-free specifications of the ball queries (what "the ball meets the shape" means) -/
+
+/-- some point of the segment `p1 p2` (non-degenerate) has squared distance `< q` from `ctr`, decided by the
+closest point: an end point, or the foot of the perpendicular when it lies on the segment -/
+def segBallSpec (p1 p2 ctr : V3 α) (q : α) : Bool :=
+  let v := p2.sub p1
+  let w := ctr.sub p1
+  let vv := v.dot v
+  let wv := w.dot v
+  decide (p1.distSq ctr < q) || decide (p2.distSq ctr < q) ||
+    (decide (0 ≤ wv) && decide (wv ≤ vv) && decide (w.dot w * vv - wv * wv < q * vv))
+
+/-- some point of the triangle `a b c` (non-degenerate) has squared distance `< q` from `ctr`: the three edges,
+or the foot of the perpendicular on the plane when its barycentric coordinates are in range -/
+def triBallSpec (a b c ctr : V3 α) (q : α) : Bool :=
+  segBallSpec a b ctr q || segBallSpec b c ctr q || segBallSpec c a ctr q ||
+    (let e1 := b.sub a
+     let e2 := c.sub a
+     let n := e1.cross e2
+     let w := ctr.sub a
+     let nn := n.dot n
+     let u' := (w.cross e2).dot n
+     let v' := (e1.cross w).dot n
+     decide (0 ≤ u') && decide (0 ≤ v') && decide (u' + v' ≤ nn) && decide (w.dot n * w.dot n < q * nn))
+
+/-- 2-D version of `segBallSpec`. -/
+def seg2BallSpec (p1 p2 ctr : V2 α) (q : α) : Bool :=
+  let v := p2.sub p1
+  let w := ctr.sub p1
+  let vv := v.dot v
+  let wv := w.dot v
+  decide (p1.distSq ctr < q) || decide (p2.distSq ctr < q) ||
+    (decide (0 ≤ wv) && decide (wv ≤ vv) && decide (w.dot w * vv - wv * wv < q * vv))
+
 /-! ## `profileCollider` -/
 
 /-- The closure `inside2d` of `profileCollider.RayCollisions` for a non-vertical ray. -/
